@@ -98,6 +98,7 @@ type FV struct {
 	closures    map[types.Object]*closure
 	lastClosure *closure
 	closureIsOrd map[string]bool
+	divCache map[string][2]string
 }
 
 type loopCtx struct {
@@ -222,7 +223,13 @@ func (fv *FV) sortOf(t types.Type) string {
 		name := "T_" + x.Obj().Name()
 		fv.declareSort(name)
 		return name
-	case *types.Pointer, *types.Map, *types.Signature, *types.Interface, *types.Chan:
+	case *types.Pointer:
+		if _, isStruct := x.Elem().Underlying().(*types.Struct); isStruct {
+			return sInt
+		}
+		fv.declare("sort:ElemPtr", "(declare-datatypes ((ElemPtr 0)) (((mk-eptr (epbase Int) (epidx Int)))))")
+		return "ElemPtr"
+	case *types.Map, *types.Signature, *types.Interface, *types.Chan:
 		return sInt
 	case *types.Slice:
 		return sSlice
@@ -332,6 +339,8 @@ func (fv *FV) zeroOfSort(s string, t types.Type) string {
 		return "(mk-str 0 0 0)"
 	case isBV(s):
 		return fmt.Sprintf("(_ bv0 %d)", bvWidth(s))
+	case s == "ElemPtr":
+		return "(mk-eptr 0 0)"
 	case strings.HasPrefix(s, "S_"):
 		if t != nil {
 			if st, ok := t.Underlying().(*types.Struct); ok {
@@ -414,6 +423,9 @@ func (fv *FV) wfAxioms(key, c, alloc string) {
 	}
 	if fv.compKind[key] == "ptr" {
 		fv.axioms = append(fv.axioms, fmt.Sprintf("(forall ((r Int)) (! (select %s (select %s r)) :pattern ((select %s r))))", alloc, c, c))
+	}
+	if sort == arr(sInt, arr(sInt, sSlice)) {
+		fv.axioms = append(fv.axioms, fmt.Sprintf("(forall ((r Int) (x Int)) (! (let ((s (select (select %s r) x))) (and (<= 0 (soff s)) (<= 0 (slen s)) (<= (slen s) (scap s)) (=> (= (sbase s) 0) (= (scap s) 0)) (select %s (sbase s)))) :pattern ((select (select %s r) x))))", c, alloc, c))
 	}
 }
 
